@@ -105,14 +105,19 @@ Und kann so benutzt werden:
 
 Die Funktion f_zeiget mit dem Parameter t vom Typ Text, gibt nichts zurück, macht:
 	Schreibe den Buchstaben '<'.
-	Schreibe den Text t.
+	Für jeden Buchstaben c in t, mache:
+		Wenn c gleich '\\n' ist, Schreibe den Text "\\\\n".
+		Wenn aber c gleich '\\t' ist, Schreibe den Text "\\\\t".
+		Sonst Schreibe den Buchstaben c.
 	Schreibe den Buchstaben '>'.
 Und kann so benutzt werden:
 	"ZEIGET <t>"
 
 Die Funktion f_zeigeb mit dem Parameter t vom Typ Buchstabe, gibt nichts zurück, macht:
 	Schreibe den Buchstaben '<'.
-	Schreibe den Buchstaben t.
+	Wenn t gleich '\\n' ist, Schreibe den Text "\\\\n".
+	Wenn aber t gleich '\\t' ist, Schreibe den Text "\\\\t".
+	Sonst Schreibe den Buchstaben t.
 	Schreibe den Buchstaben '>'.
 Und kann so benutzt werden:
 	"ZEIGEB <t>"
@@ -202,42 +207,50 @@ Und kann so benutzt werden:
 '''
 
 
-def program(fn, forms):
-    """DDP source of the driver of function entry fn. forms: list of call forms ('v' variables, 'x' expression
-    arguments through an identity function, which selects the non-Referenz overload). Work item w = case * len(forms) + form."""
-    mods = ["Duden/Ausgabe", "Duden/Laufzeit"] + [m for m in fn["imports"]]
+def program(entries):
+    """DDP source of one driver. entries: list of (fn, forms); forms: list of call forms ('v' variables, 'x' expression
+    arguments through an identity function, which selects the non-Referenz overload). argv[1] selects the entry,
+    the cases follow; work item w = case * len(forms) + form."""
+    mods = ["Duden/Ausgabe", "Duden/Laufzeit"]
+    for fn, _ in entries:
+        for m in fn["imports"]:
+            if m not in mods:
+                mods.append(m)
     s = "".join('Binde "%s" ein.\n' % m for m in mods)
     s += SHIM_DECL + PRELUDE_FUNCS
-    k = max(len(fn["params"]), 1)
-    nf = len(forms)
-    s += "\nDie Text Liste args ist die Befehlszeilenargumente.\nDie Zahl nitems ist (((((die Länge von args) minus 1) durch %d) als Zahl) mal %d).\n" % (k, nf)
-    s += "Die Zahl w ist NAECHSTER nitems.\n"
-    s += "Solange w größer als, oder 0 ist, mache:\n"
-    s += "\tDie Zahl form ist w modulo %d.\n" % nf
-    s += "\tDie Zahl p ist (2 plus ((((w minus form) durch %d) als Zahl) mal %d)).\n" % (nf, k)
-    for i, kind in enumerate(fn["params"]):
-        decl, dec, _ = KINDS[kind]
-        s += "\t%s a%d ist %s.\n" % (decl, i, dec.replace("{X}", "args an der Stelle (p plus %d)" % i))
-    for fi, variant in enumerate(forms):
-        call_args = []
+    s += "\nDie Text Liste args ist die Befehlszeilenargumente.\nDie Zahl fnr ist (args an der Stelle 2) als Zahl.\n"
+    for nr, (fn, forms) in enumerate(entries):
+        k = max(len(fn["params"]), 1)
+        nf = len(forms)
+        s += "\n[ %s ]\nWenn fnr gleich %d ist, dann:\n" % (fn["id"], nr)
+        s += "\tDie Zahl nitems ist (((((die Länge von args) minus 2) durch %d) als Zahl) mal %d).\n" % (k, nf)
+        s += "\tDie Zahl w ist NAECHSTER nitems.\n"
+        s += "\tSolange w größer als, oder 0 ist, mache:\n"
+        s += "\t\tDie Zahl form ist w modulo %d.\n" % nf
+        s += "\t\tDie Zahl p ist (3 plus ((((w minus form) durch %d) als Zahl) mal %d)).\n" % (nf, k)
         for i, kind in enumerate(fn["params"]):
-            if variant == "x" and kind in COPY and i not in fn.get("refs", ()):
-                call_args.append("(%s a%d)" % (COPY[kind], i))
+            decl, dec, _ = KINDS[kind]
+            s += "\t\t%s a%d ist %s.\n" % (decl, i, dec.replace("{X}", "args an der Stelle (p plus %d)" % i))
+        for fi, variant in enumerate(forms):
+            call_args = []
+            for i, kind in enumerate(fn["params"]):
+                if variant == "x" and kind in COPY and i not in fn.get("refs", ()):
+                    call_args.append("(%s a%d)" % (COPY[kind], i))
+                else:
+                    call_args.append("a%d" % i)
+            call = fn["tmpl"].format(*call_args)
+            s += "\t\tWenn form gleich %d ist, dann:\n" % fi
+            if fn["res"] is None:
+                s += "\t\t\t%s\n" % call
             else:
-                call_args.append("a%d" % i)
-        call = fn["tmpl"].format(*call_args)
-        s += "\tWenn form gleich %d ist, dann:\n" % fi
-        if fn["res"] is None:
-            s += "\t\t%s\n" % call
-        else:
-            rk = fn["res"]
-            s += "\t\t%s r ist %s.\n" % (KINDS[rk][0], call)
-            s += "\t\t%s\n" % KINDS[rk][2].replace("{V}", "r")
-    for i, kind in enumerate(fn["params"]):
-        s += "\tSchreibe den Buchstaben '\\t'.\n"
-        s += "\t%s\n" % KINDS[kind][2].replace("{V}", "a%d" % i)
-    s += "\tSchreibe den Buchstaben '\\n'.\n"
-    s += "\tSpeichere (NAECHSTER nitems) in w.\n"
+                rk = fn["res"]
+                s += "\t\t\t%s r ist %s.\n" % (KINDS[rk][0], call)
+                s += "\t\t\t%s\n" % KINDS[rk][2].replace("{V}", "r")
+        for i, kind in enumerate(fn["params"]):
+            s += "\t\tSchreibe den Buchstaben '\\t'.\n"
+            s += "\t\t%s\n" % KINDS[kind][2].replace("{V}", "a%d" % i)
+        s += "\t\tSchreibe den Buchstaben '\\n'.\n"
+        s += "\t\tSpeichere (NAECHSTER nitems) in w.\n"
     return s
 
 
@@ -269,21 +282,30 @@ def fmt_float(q):
     return repr(q / 4)
 
 
+def esc(t):
+    return t.replace("\n", "\\n").replace("\t", "\\t")
+
+
+def kfmt(x):
+    """Kommazahlen are compared to 12 significant digits (the runtime prints %.16g)"""
+    return "K%.12g" % float(x)
+
+
 def ser(kind, v):
     if kind == "Z":
         return str(v)
     if kind == "W":
         return "wahr" if v else "falsch"
     if kind in ("T", "B", "X"):
-        return "<" + v + ">"
+        return "<" + esc(v) + ">"
     if kind in ("ZL", "YL"):
         return "[" + "".join("%d," % x for x in v) + "]"
     if kind in ("TL", "BL", "XL"):
-        return "[" + "".join("<%s>," % x for x in v) + "]"
+        return "[" + "".join("<%s>," % esc(x) for x in v) + "]"
     if kind == "K":
-        return "K" + repr(float(v))
+        return kfmt(v)
     if kind == "KL":
-        return "[" + "".join("K%r;" % float(x / 4) for x in v) + "]"
+        return "[" + "".join(kfmt(x / 4) + ";" for x in v) + "]"
     raise ValueError(kind)
 
 
@@ -292,7 +314,7 @@ def norm_field(kind, s):
     def fl(x):
         x = x.replace(",", ".")
         try:
-            return "K" + repr(float(x))
+            return kfmt(float(x))
         except ValueError:
             return "K?" + x
     if kind == "K":
